@@ -114,6 +114,39 @@ func scenarios() []scn {
 	}
 }
 
+// earlyProgress is an insert during which the server reports progress while the client is
+// still sending (receiver and sender both active).
+func earlyProgress() scn {
+	return scn{"insert-early-progress", ch.Options{}, func(c *Conn, fa *failAt) (ch.Query, []Step) {
+		col := &proto.ColUInt64{1, 2, 3}
+		q := ch.Query{Body: "INSERT INTO t VALUES", QueryID: "q-insert", Input: proto.Input{{Name: "v", Data: col}},
+			OnProgress: func(ctx context.Context, p proto.Progress) error { return fa.hit() }}
+		round := 0
+		q.OnInput = func(ctx context.Context) error {
+			if err := fa.hit(); err != nil {
+				return err
+			}
+			round++
+			col.Reset()
+			if round == 2 {
+				return io.EOF
+			}
+			col.Append(uint64(100 + round))
+			return nil
+		}
+		w := c.W
+		return q, []Step{
+			{Name: "await-query", AwaitN: 2},
+			{Name: "schema", Send: w.Data(0, Col("v", "UInt64"))},
+			{Name: "progress1", Send: w.Progress(refwire.Progress{WroteRows: 1, WroteBytes: 8})},
+			{Name: "await-first-block", AwaitN: 3},
+			{Name: "progress2", Send: w.Progress(refwire.Progress{WroteRows: 2, WroteBytes: 16})},
+			{Name: "await-data", AwaitN: 5},
+			{Name: "eos", Send: EOS(), Term: true},
+		}
+	}}
+}
+
 // fault is one element of the outer fault enumeration.
 type fault struct {
 	kind string // none exc cut wfail callback unknown unexpected badblock
@@ -132,6 +165,8 @@ func (f fault) String() string {
 }
 
 var curBound int
+
+var excReadonly = refwire.Exception{Code: 164, Name: "DB::Exception", Message: "DB::Exception: readonly", Stack: "stack"}
 
 // body04 builds the execution body of scenario s under fault f.
 func body04(s scn, f fault, probe bool) Body {
@@ -154,7 +189,7 @@ func body04(s scn, f fault, probe bool) Body {
 		case "callback":
 			fa.n = f.k
 		case "exc":
-			inj = &Inject{G: f.k, Stop: true, Bytes: c.W.Exception(refwire.Exception{Code: 164, Name: "DB::Exception", Message: "DB::Exception: readonly", Stack: "stack"})}
+			inj = &Inject{G: f.k, Stop: true, Bytes: c.W.Exception(excReadonly)}
 		case "unknown":
 			inj = &Inject{G: f.k, Stop: true, Bytes: []byte{99}}
 		case "unexpected":
